@@ -614,6 +614,34 @@ pub fn run(cfg: &Cfg, rep: &mut Report) {
         ("x := 5; x- -1", "x := 5; x - (-1)", "6", "sub-then-minus"),
         ("2+-1", "2 + (-1)", "1", "add-then-minus"),
         ("[1]~$]", "[1]~ $]", "[1]", "munch-collect"),
+        // the type operand of `? T` is a whole type: a union written without parentheses belongs to it
+        ("[1, 2.5, \"s\"]~ ? int | float $]", "(([1, 2.5, \"s\"]~) ? int|float) $]", "[1, 2.5f]", "type-filter-union-operand"),
+        ("[1, 2.5, \"s\"]~ ? int|float $]", "(([1, 2.5, \"s\"]~) ? int|float) $]", "[1, 2.5f]", "type-filter-union-operand"),
+        ("[1, true, \"s\", 2]~ ? int | bool | float $]", "(([1, true, \"s\", 2]~) ? int|bool|float) $]", "[1, true, 2]", "type-filter-union-operand-3"),
+        ("[1, 2.5, \"s\"]~ ? int | string @ (x: int|string) -> int { return 1 } $+", "((([1, 2.5, \"s\"]~) ? int|string) @ (x: int|string) -> int { return 1 }) $+", "2", "type-filter-union-then-map"),
+        ("c := mut [int|float|string] [1, 2.5, \"s\"]; *c~ ? int | float $]", "c := mut [int|float|string] [1, 2.5, \"s\"]; (((*c)~) ? int|float) $]", "[1, 2.5f]", "type-filter-union-after-deref"),
+        ("f := (a: [int|string|[int]]) -> int { return std.len(a~ ? [int] | string $]) }; f([1, \"s\", [2]])", "f := (a: [int|string|[int]]) -> int { return std.len(((a~) ? [int]|string) $]) }; f([1, \"s\", [2]])", "2", "type-filter-union-array-member"),
+        // assignments are loosest: the whole right-hand side is evaluated, then the target is updated once
+        ("c := mut 1; c += 10 + *c; *c", "c := mut 1; c += (10 + *c); *c", "12", "add-assign-of-sum-reading-target"),
+        ("c := mut 1; c += *c + 10 + *c; *c", "c := mut 1; c += ((*c + 10) + *c); *c", "13", "add-assign-of-sum-reading-target"),
+        ("c := mut 3; c -= 1 - *c; *c", "c := mut 3; c -= (1 - *c); *c", "5", "sub-assign-of-difference-reading-target"),
+        ("c := mut 3; c *= 2 * *c; *c", "c := mut 3; c *= (2 * *c); *c", "18", "mul-assign-of-product-reading-target"),
+        ("c := mut 3; c *= 2 + *c; *c", "c := mut 3; c *= (2 + *c); *c", "15", "mul-assign-of-sum-reading-target"),
+        ("c := mut 24; c /= *c / 6; *c", "c := mut 24; c /= (*c / 6); *c", "6", "div-assign-of-quotient-reading-target"),
+        ("c := mut 7; c %= 5 % *c; *c", "c := mut 7; c %= (5 % *c); *c", "2", "mod-assign-of-remainder-reading-target"),
+        ("c := mut 2; c **= 2 ** *c; *c", "c := mut 2; c **= (2 ** *c); *c", "16", "pow-assign-of-power-reading-target"),
+        ("c := mut 1; c <<= 1 << *c; *c", "c := mut 1; c <<= (1 << *c); *c", "4", "shl-assign-of-shift-reading-target"),
+        ("c := mut 1; c >>= 2 >> *c; *c", "c := mut 1; c >>= (2 >> *c); *c", "0", "shr-assign-of-shift-reading-target"),
+        ("c := mut 6; c &= 3 & *c; *c", "c := mut 6; c &= (3 & *c); *c", "2", "and-assign-of-and-reading-target"),
+        ("c := mut 1; c |= 2 | *c; *c", "c := mut 1; c |= (2 | *c); *c", "3", "or-assign-of-or-reading-target"),
+        ("c := mut 5; c ^= 1 ^ *c; *c", "c := mut 5; c ^= (1 ^ *c); *c", "1", "xor-assign-of-xor-reading-target"),
+        ("c := mut [1]; c += [2] + *c; *c", "c := mut [1]; c += ([2] + *c); *c", "[1, 2, 1]", "append-assign-of-concatenation-reading-target"),
+        ("c := mut \"a\"; c += \"b\" + *c; *c == \"aba\"", "c := mut \"a\"; c += (\"b\" + *c); *c == \"aba\"", "true", "string-append-assign-of-concatenation-reading-target"),
+        ("c := mut 1e16; c += hf(1.0) + hf(1.0); *c == 10000000000000002.0", "c := mut 1e16; c += (hf(1.0) + hf(1.0)); *c == 10000000000000002.0", "true", "float-add-assign-of-sum"),
+        ("c := mut 1e16; c -= hf(1.0) + hf(1.0); *c == 9999999999999998.0", "c := mut 1e16; c -= (hf(1.0) + hf(1.0)); *c == 9999999999999998.0", "true", "float-sub-assign-of-sum"),
+        ("c := mut 5; d := mut 0; c += (d = *c) + *c; (*c, *d)", "c := mut 5; d := mut 0; c += ((d = *c) + *c); (*c, *d)", "(15, 5)", "add-assign-of-sum-with-effect"),
+        ("c := mut true; c &= false | *c; *c", "c := mut true; c &= (false | *c); *c", "true", "bool-and-assign-of-or-reading-target"),
+        ("c := mut false; c |= true & *c; *c", "c := mut false; c |= (true & *c); *c", "false", "bool-or-assign-of-and-reading-target"),
     ];
     for (src, grouped, expected, tag) in t {
         ctx.template(src, grouped, expected, tag);
